@@ -1,23 +1,36 @@
 (** C08 correspondence: Model/StateDB.v against recorded histories of the real
     storage.StateDB (over CacheDB / OverlayDB / in-memory LevelDB, with ong.OngBalanceHandle).
 
-    A case is one history: the effective backend content, the Keccak values of the codes used, the
-    universe of addresses and slots that is observed, and for every step the operation, what it
+    A case is one history: the Keccak values of the codes used, the universe of addresses and slots
+    that is observed, the effective backend content, and for every step the operation, what it
     returned (or that it panicked, and how) and the answers of ALL getters over the universe right
-    after it; at the end the raw content of the transaction memdb, the self-destruct set and the
-    whole snapshot stack (read through the verif hook). [case_ok] replays the history on the model
-    and compares everything. *)
+    after it, followed by DbErr; at the end the raw content of the transaction memdb, the
+    self-destruct set and the whole snapshot stack (read through the verif hook).
+    [case_ok] replays the history on the model and compares everything.
+
+    Two forms. [CHist] carries the getter vectors and the final dump literally (scripted histories
+    and replays). [CHistD] carries, per step, a 61-bit fingerprint of (result, getter vector, DbErr)
+    and one of the final dump: Coq needs ~0.1-20 ms to read one numeral, so literal vectors
+    (about 40 numbers per step) are affordable only for a few histories. The fingerprint is the
+    polynomial hash [digest] below over the same numbers in the same order, computed by the driver
+    on the implementation's answers and here on the model's. *)
 From Coq Require Import List Bool NArith ZArith.
 Import ListNotations.
 From Ont Require Export Lib.Bytes Lib.CorrLib Model.StateDB.
+From Ont Require Import Model.Codec Gen.StateDBConsts.
 Local Open Scope N_scope.
 Open Scope bool_scope.
 
 (** Compact constructors used by the driver: big-endian fixed-width byte strings. *)
 Definition be (w : nat) (v : N) : bytes := rev (le_encode w v).
-Definition A (v : N) : bytes := be 20 v.   (* address *)
-Definition W (v : N) : bytes := be 32 v.   (* hash / slot / value *)
+Definition A (v : N) : bytes := be 20 v.              (* address with a small numeric value *)
+Definition AH (v : N) : bytes := be 4 v ++ repeat 0 16. (* address: 4 leading bytes, rest zero *)
+Definition W (v : N) : bytes := be 32 v.              (* 32-byte word with a small numeric value *)
+Definition WH (v : N) : bytes := be 4 v ++ repeat 0 28. (* word: 4 leading bytes, rest zero *)
+Definition WF : bytes := repeat 255 32.
+Definition AF (v : N) : bytes := repeat 255 19 ++ [v].
 Definition be_decode (b : bytes) : N := fold_left (fun acc x => acc * 256 + x) b 0.
+Definition bn (b : bytes) : N := be_decode (1 :: b).   (* injective on byte strings *)
 
 (** Keccak as a table supplied by the implementation run. *)
 Definition mk_H (tbl : list (bytes * bytes)) (code : bytes) : bytes :=
@@ -32,7 +45,7 @@ Definition b2n (b : bool) : N := if b then 1 else 0.
 Definition obs_addr (backend : memdb) (s : statedb) (slots : list bytes) (a : bytes) : list N :=
   [ get_nonce backend s a;
     be_decode (get_code_hash backend s a);
-    be_decode (1 :: get_code backend s a);
+    bn (get_code backend s a);
     N.of_nat (get_code_size backend s a);
     get_balance_v backend s a;
     b2n (has_suicided s a);
@@ -54,12 +67,102 @@ Definition ret_eqb (a b : ret) : bool :=
   | _, _ => false
   end.
 
+Definition ret_code (r : ret) : list N :=
+  match r with
+  | RUnit => [0]
+  | RBool b => [1; b2n b]
+  | RInt z => [2; Z.to_N z]
+  | RPanic => [3]
+  | RFault => [4]
+  end.
+
+(** Fingerprint. *)
+Definition P61 : N := 2305843009213693951.
+Definition DBASE : N := 1000000007.
+Definition mix (h x : N) : N := (h * DBASE + x mod P61 + 1) mod P61.
+Definition digest (seed : N) (l : list N) : N := fold_left mix l seed.
+
+(** Final dump as a list of numbers. *)
+Definition mem_nums (m : memdb) : list N :=
+  N.of_nat (length m) :: flat_map (fun kv => [bn (fst kv); bn (snd kv)]) m.
+Definition set_nums (l : list bytes) : list N := N.of_nat (length l) :: map bn l.
+Definition snap_nums (sn : snapshot) : list N :=
+  mem_nums (sn_changes sn) ++ set_nums (sn_suicided sn) ++ [N.of_nat (sn_logsSize sn); sn_refund sn].
+Definition final_nums (s : statedb) : list N :=
+  mem_nums (sd_mem s) ++ set_nums (sd_suicided s) ++ N.of_nat (length (sd_snaps s)) :: flat_map snap_nums (sd_snaps s).
+
+(** Operations over the universe (addresses, slots and codes by position). *)
+Inductive cop :=
+| CSetState (a s : nat) (v : bytes)
+| CSetNonce (a : nat) (n : N)
+| CSetCode (a c : nat)
+| CAddBalance (a : nat) (v : N)
+| CSubBalance (a : nat) (v : N)
+| CSuicide (a : nat)
+| CAddLog (l : N)
+| CAddRefund (g : N)
+| CSubRefund (g : N)
+| CCreate (a : nat)
+| CSnap
+| CRevert (i : Z)
+| CDiscard (i : Z).
+
+Definition nthb (l : list bytes) (i : nat) : bytes := nth i l [].
+
+Definition to_op (tbl : list (bytes * bytes)) (addrs slots : list bytes) (o : cop) : op :=
+  match o with
+  | CSetState a s v => OSetState (nthb addrs a) (nthb slots s) v
+  | CSetNonce a n => OSetNonce (nthb addrs a) n
+  | CSetCode a c => OSetCode (nthb addrs a) (fst (nth c tbl ([], [])))
+  | CAddBalance a v => OAddBalance (nthb addrs a) v
+  | CSubBalance a v => OSubBalance (nthb addrs a) v
+  | CSuicide a => OSuicide (nthb addrs a)
+  | CAddLog l => OAddLog l
+  | CAddRefund g => OAddRefund g
+  | CSubRefund g => OSubRefund g
+  | CCreate a => OCreateAccount (nthb addrs a)
+  | CSnap => OSnapshot
+  | CRevert i => ORevert i
+  | CDiscard i => ODiscard i
+  end.
+
+(** Backend entries, by position in the universe where possible. Keys are built with the model's
+    own key functions (from the regenerated constants); the implementation was given keys built
+    from the real package constants, so a layout disagreement shows as wrong reads. *)
+Inductive hsel := HZero | HTbl (c : nat) | HRaw (b : bytes).
+Inductive bent :=
+| BRaw (k v : bytes)
+| BAcct (a : nat) (nonce : N) (h : hsel)
+| BAcctRaw (a : nat) (raw : bytes)
+| BBal (a : nat) (v : N)
+| BBalRaw (a : nat) (raw : bytes)
+| BSlot (a s : nat) (v : bytes)
+| BCode (h : hsel) (code : bytes).
+
+Definition hsel_bytes (tbl : list (bytes * bytes)) (h : hsel) : bytes :=
+  match h with HZero => zero_hash | HTbl c => snd (nth c tbl ([], [])) | HRaw b => b end.
+
+Definition bent_kv (tbl : list (bytes * bytes)) (addrs slots : list bytes) (e : bent) : bytes * bytes :=
+  match e with
+  | BRaw k v => (k, v)
+  | BAcct a n h => (ST_ETH_ACCOUNT :: nthb addrs a, acct_ser (mkAcct n (hsel_bytes tbl h)))
+  | BAcctRaw a raw => (ST_ETH_ACCOUNT :: nthb addrs a, raw)
+  | BBal a v => (ST_STORAGE :: balance_key (nthb addrs a),
+                 match balance_item v with Some b => b | None => [] end)
+  | BBalRaw a raw => (ST_STORAGE :: balance_key (nthb addrs a), raw)
+  | BSlot a s v => (ST_STORAGE :: nthb addrs a ++ nthb slots s, v)
+  | BCode h code => (ST_ETH_CODE :: hsel_bytes tbl h, code)
+  end.
+
+Inductive vstep := VSt (o : cop) (r : ret) (v : list N).   (* getters ++ [dbErr] *)
+Inductive dstep := DSt (o : cop) (r : ret) (d : N).        (* fingerprint of ret, getters, dbErr *)
+
 Definition kv_eqb (a b : bytes * bytes) : bool := bytes_eqb (fst a) (fst b) && bytes_eqb (snd a) (snd b).
 Definition memdb_eqb : memdb -> memdb -> bool := list_eqb kv_eqb.
 
-Definition snapdump := (memdb * list bytes * nat * N)%type.
+Inductive snapdump := SnapD (m : memdb) (su : list bytes) (n : nat) (r : N).
 Definition snap_eqb (sn : snapshot) (d : snapdump) : bool :=
-  let '(m, su, n, r) := d in
+  let '(SnapD m su n r) := d in
   memdb_eqb (sn_changes sn) m && list_eqb bytes_eqb (sn_suicided sn) su && Nat.eqb (sn_logsSize sn) n && (sn_refund sn =? r).
 
 Fixpoint snaps_eqb (l : list snapshot) (d : list snapdump) : bool :=
@@ -70,44 +173,79 @@ Fixpoint snaps_eqb (l : list snapshot) (d : list snapdump) : bool :=
   end.
 
 Inductive case :=
-| CHist (backend : memdb) (tbl : list (bytes * bytes)) (addrs slots : list bytes)
-        (steps : list (op * ret * list N))     (* op, result, getters ++ [dbErr] *)
-        (fin_mem : memdb) (fin_suicided : list bytes) (fin_snaps : list snapdump).
+| CHist (tbl : list (bytes * bytes)) (addrs slots : list bytes) (backend : list bent)
+        (steps : list vstep)
+        (fin_mem : memdb) (fin_suicided : list bytes) (fin_snaps : list snapdump)
+| CHistD (tbl : list (bytes * bytes)) (addrs slots : list bytes) (backend : list bent)
+        (steps : list dstep) (fin : N).
 
-Fixpoint replay (H : bytes -> bytes) (backend : memdb) (addrs slots : list bytes)
-                (s : statedb) (steps : list (op * ret * list N)) : option statedb :=
-  match steps with
-  | [] => Some s
-  | (o, r, v) :: rest =>
-      let '(s1, r1) := step H backend s o in
-      let '(vec, e) := obs_vec backend s1 addrs slots in
-      let s2 := with_err s1 e in
-      if ret_eqb r1 r && list_eqb N.eqb (vec ++ [b2n (sd_err s2)]) v
-      then replay H backend addrs slots s2 rest
-      else None
-  end.
+Section Replay.
+  Variable tbl : list (bytes * bytes).
+  Variable addrs slots : list bytes.
+  Variable backend : memdb.
+
+  (** one step on the model: new state (with the error flag the getters may have set), result,
+      getter vector ++ [dbErr] *)
+  Definition model_step (s : statedb) (o : cop) : statedb * ret * list N :=
+    let '(s1, r1) := step (mk_H tbl) backend s (to_op tbl addrs slots o) in
+    let '(vec, e) := obs_vec backend s1 addrs slots in
+    let s2 := with_err s1 e in
+    (s2, r1, vec ++ [b2n (sd_err s2)]).
+
+  Fixpoint replay_v (s : statedb) (steps : list vstep) : option statedb :=
+    match steps with
+    | [] => Some s
+    | VSt o r v :: rest =>
+        let '(s2, r1, vec) := model_step s o in
+        if ret_eqb r1 r && list_eqb N.eqb vec v then replay_v s2 rest else None
+    end.
+
+  Fixpoint replay_d (s : statedb) (steps : list dstep) : option statedb :=
+    match steps with
+    | [] => Some s
+    | DSt o r d :: rest =>
+        let '(s2, r1, vec) := model_step s o in
+        if ret_eqb r1 r && (digest 7 (ret_code r1 ++ vec) =? d) then replay_d s2 rest else None
+    end.
+
+  (** Diagnosis by hand: index of the first disagreeing step and what the model answers there. *)
+  Fixpoint first_bad_v (s : statedb) (steps : list vstep) (i : nat) : option (nat * ret * list N) :=
+    match steps with
+    | [] => None
+    | VSt o r v :: rest =>
+        let '(s2, r1, vec) := model_step s o in
+        if ret_eqb r1 r && list_eqb N.eqb vec v then first_bad_v s2 rest (S i) else Some (i, r1, vec)
+    end.
+  Fixpoint first_bad_d (s : statedb) (steps : list dstep) (i : nat) : option (nat * ret * list N) :=
+    match steps with
+    | [] => None
+    | DSt o r d :: rest =>
+        let '(s2, r1, vec) := model_step s o in
+        if ret_eqb r1 r && (digest 7 (ret_code r1 ++ vec) =? d) then first_bad_d s2 rest (S i) else Some (i, r1, vec)
+    end.
+End Replay.
+
+Definition mk_backend (tbl : list (bytes * bytes)) (addrs slots : list bytes) (b : list bent) : memdb :=
+  map (bent_kv tbl addrs slots) b.
 
 Definition case_ok (c : case) : bool :=
   match c with
-  | CHist backend tbl addrs slots steps fm fs fsn =>
-      match replay (mk_H tbl) backend addrs slots sdb_new steps with
+  | CHist tbl addrs slots b steps fm fs fsn =>
+      match replay_v tbl addrs slots (mk_backend tbl addrs slots b) sdb_new steps with
       | None => false
       | Some s => memdb_eqb (sd_mem s) fm && list_eqb bytes_eqb (sd_suicided s) fs && snaps_eqb (sd_snaps s) fsn
+      end
+  | CHistD tbl addrs slots b steps fin =>
+      match replay_d tbl addrs slots (mk_backend tbl addrs slots b) sdb_new steps with
+      | None => false
+      | Some s => digest 11 (final_nums s) =? fin
       end
   end.
 
 Definition mismatches := mism case_ok.
 
-(** Index of the first step on which the model disagrees (for diagnosis by hand). *)
-Fixpoint first_bad (H : bytes -> bytes) (backend : memdb) (addrs slots : list bytes)
-                   (s : statedb) (steps : list (op * ret * list N)) (i : nat) : option (nat * ret * list N) :=
-  match steps with
-  | [] => None
-  | (o, r, v) :: rest =>
-      let '(s1, r1) := step H backend s o in
-      let '(vec, e) := obs_vec backend s1 addrs slots in
-      let s2 := with_err s1 e in
-      if ret_eqb r1 r && list_eqb N.eqb (vec ++ [b2n (sd_err s2)]) v
-      then first_bad H backend addrs slots s2 rest (S i)
-      else Some (i, r1, vec ++ [b2n (sd_err s2)])
+Definition first_bad (c : case) : option (nat * ret * list N) :=
+  match c with
+  | CHist tbl addrs slots b steps _ _ _ => first_bad_v tbl addrs slots (mk_backend tbl addrs slots b) sdb_new steps 0
+  | CHistD tbl addrs slots b steps _ => first_bad_d tbl addrs slots (mk_backend tbl addrs slots b) sdb_new steps 0
   end.
